@@ -30,8 +30,8 @@ EXTENDS RawLayout, Json
 
 CONSTANT Tier        \* 0 = quick, 1 = thorough
 
-VARIABLES phase, key, x, wf, cls
-vars == <<phase, key, x, wf, cls>>
+VARIABLES phase, key, x, wf, cls, before
+vars == <<phase, key, x, wf, cls, before>>
 
 ---------------------------------------------------------------------------
 (* constants of the pool *)
@@ -144,6 +144,17 @@ PoolCase(front) ==
         pool == [i \in 1..Len(raw) |-> IF i = Len(front) + 2 THEN [k |-> "Class", name_index |-> IndexOfPos(raw, Len(front) + 1)] ELSE raw[i]]
     IN Cls(pool, IndexOfPos(pool, Len(front) + 2), <<>>, <<>>, <<>>,
            <<[k |-> "SourceFile", attribute_name_index |-> IndexOfPos(pool, Len(front) + 3), sourcefile_index |-> IndexOfPos(pool, Len(front) + 1)]>>)
+(* the same three entries with `front` before and `back` behind them *)
+PoolCaseBack(front, back) ==
+    LET c == PoolCase(front) IN [c EXCEPT !.constant_pool = @ \o back]
+(* history family: two classes whose attribute name sits at the same pool index behind a different number of two-slot    *)
+(* constants, pools of the same size - one is read (and dropped) right before the other.  Reading is a function of the   *)
+(* bytes: what an earlier read left behind may not show.                                                                 *)
+HistA == PoolCaseBack(<<Utf8E(<<102>>), Utf8E(<<103>>)>>, <<LongE>>)
+HistB == PoolCaseBack(<<LongE>>, <<Utf8E(<<102>>), Utf8E(<<103>>)>>)
+HistC == PoolCaseBack(<<DoubleE, Utf8E(<<102>>)>>, <<IntE, LongE>>)
+HistD == PoolCaseBack(<<Utf8E(<<102>>), IntE, Utf8E(<<103>>)>>, <<DoubleE, LongE>>) 
+HistPairs == {<<HistA, HistB>>, <<HistB, HistA>>, <<HistC, HistD>>, <<HistD, HistC>>, <<HistA, HistA>>}
 WidePos(front) ==
     LET W == {i \in 1..Len(front) : CpVariants[front[i].k].slots = 2} IN
     IF W = {} THEN "none" ELSE IF 1 \in W THEN "start" ELSE IF Len(front) \in W THEN "end" ELSE "mid"
@@ -280,10 +291,11 @@ WfCase(a, n, wide) ==
          [] a = "Other" -> onClass([info |-> [j \in 1..n |-> 200 + j]])
 
 ---------------------------------------------------------------------------
-Init == phase = "start" /\ key = <<>> /\ x = <<>> /\ wf = FALSE /\ cls = ""
+Init == phase = "start" /\ key = <<>> /\ x = <<>> /\ wf = FALSE /\ cls = "" /\ before = <<>>
 
-Pick1(k) == phase = "start" /\ phase' = "key" /\ key' = k /\ UNCHANGED <<x, wf, cls>>
-Case(v, w, c) == x' = v /\ wf' = w /\ cls' = c /\ phase' = "case" /\ UNCHANGED key
+Pick1(k) == phase = "start" /\ phase' = "key" /\ key' = k /\ UNCHANGED <<x, wf, cls, before>>
+Case(v, w, c) == x' = v /\ wf' = w /\ cls' = c /\ phase' = "case" /\ UNCHANGED <<key, before>>
+PickHist == phase = "start" /\ \E p \in HistPairs : x' = p[2] /\ before' = p[1] /\ wf' = TRUE /\ cls' = "hist" /\ phase' = "case" /\ key' = <<"hist">>
 
 Step1 ==
     \/ \E a \in AttrKinds, level \in Levels : Pick1(<<"attr", a, level>>)
@@ -328,7 +340,7 @@ Step2 ==
                                    /\ (Tier = 0 => b \in {"Other", "Signature", "Code", "Deprecated"})
                                    /\ Case(InconsCase(key[2], b), FALSE, "incons")
 
-Next == Step1 \/ Step2
+Next == Step1 \/ Step2 \/ PickHist
 Spec == Init /\ [][Next]_vars
 
 ---------------------------------------------------------------------------
@@ -350,6 +362,8 @@ Emit ==
           base == [len |-> LenOf(x), announced |-> LenOf(x), bytes |-> Flatten(cells), counts |-> CountCells(cells), write_same |-> TRUE]
           rt == IF Consistent(x) THEN [back_equal |-> TRUE] ELSE <<>>
           cross == IF wf THEN [cfkit_ok |-> TRUE, duke_ok |-> TRUE] ELSE <<>>
-      IN PrintT(ToJson([op |-> "value", cls |-> cls, wide |-> HasWide(x), wf |-> wf, x |-> x, lay |-> Lay(cells),
+          \* how the stream hands out the bytes of the read-back: all that is asked for (0) or at most 1 / 3 / 64 per call
+          frag == <<0, 1, 3, 64>>[(LenOf(x) % 4) + 1]
+      IN PrintT(ToJson([op |-> "value", cls |-> cls, wide |-> HasWide(x), wf |-> wf, x |-> x, lay |-> Lay(cells), frag |-> frag, before |-> before,
                         exp |-> base @@ rt @@ cross]))
 =============================================================================
